@@ -1,1 +1,780 @@
-//! C11 (filled in below)
+//! C11 — `BM25Index` (default tokenizer) against a naive inverted index
+//! built with the SAME tokenizer.
+
+use crate::engine::{Fail, FlushOut, HOp, JEntry, ObjKey, Store, Sut};
+use anda_db_tfs::{
+    BM25Config, BM25Error, BM25Index, BM25Metadata, BM25Params, BucketObject, TokenizerChain, collect_tokens,
+    default_tokenizer,
+};
+use serde::{Deserialize, Serialize};
+use std::cell::{Cell, RefCell};
+use std::collections::{BTreeMap, BTreeSet};
+use std::sync::OnceLock;
+use vcore::util::block_on;
+
+pub const VOCAB: [&str; 4] = ["alpha", "beta", "gamma", "delta"];
+/// query terms: the vocabulary plus a word that is never indexed
+pub const TERMS: [&str; 5] = ["alpha", "beta", "gamma", "delta", "omega"];
+/// documents of 1-3 tokens incl. repeats; the last one yields no token
+/// (single letters are dropped by the tokenizer) and must be refused.
+pub const TEXTS: [&str; 7] = [
+    "alpha",
+    "alpha beta",
+    "beta gamma delta",
+    "alpha alpha beta",
+    "gamma gamma",
+    "delta alpha",
+    "x",
+];
+pub const BAD_TEXT: u8 = 6;
+const BIG_K: usize = 1000;
+
+fn tokens_of(text: &str) -> BTreeMap<String, usize> {
+    let mut t = default_tokenizer();
+    collect_tokens(&mut t, text, None).into_iter().collect()
+}
+
+/// token counts of TEXTS, by the crate's own tokenizer
+fn text_tokens(i: u8) -> &'static BTreeMap<String, usize> {
+    static T: OnceLock<Vec<BTreeMap<String, usize>>> = OnceLock::new();
+    &T.get_or_init(|| TEXTS.iter().map(|t| tokens_of(t)).collect())[i as usize]
+}
+
+fn term_token(i: usize) -> &'static str {
+    static T: OnceLock<Vec<String>> = OnceLock::new();
+    &T.get_or_init(|| {
+        TERMS
+            .iter()
+            .map(|t| {
+                let m = tokens_of(t);
+                assert_eq!(m.len(), 1, "query term {t} must be one token");
+                m.into_keys().next().unwrap()
+            })
+            .collect()
+    })[i]
+}
+
+#[derive(Clone, Debug, Serialize, Deserialize)]
+pub struct TfsCfg {
+    pub bucket_overload_size: usize,
+}
+
+#[derive(Clone, Debug, PartialEq, Eq, Serialize, Deserialize)]
+pub enum TfsOp {
+    /// (id, index into TEXTS)
+    Insert(u64, u8),
+    /// remove with the text the live document was inserted with
+    RemoveOriginal(u64),
+    /// remove with the given text (original or not)
+    RemoveWith(u64, u8),
+    Purge(Vec<u64>),
+}
+
+#[derive(Clone, Debug, Default, PartialEq)]
+pub struct TfsModel {
+    /// live documents: id -> (text index, token -> count)
+    pub docs: BTreeMap<u64, (u8, BTreeMap<String, usize>)>,
+    /// Bookkeeping for classification only (never used to compute expected
+    /// answers): (id, token) posting entries that the documented contract of
+    /// `remove` with non-original text allows to be left behind.
+    pub stale: BTreeSet<(u64, String)>,
+}
+
+impl TfsModel {
+    fn containing(&self, token: &str) -> BTreeSet<u64> {
+        self.docs
+            .iter()
+            .filter(|(_, (_, toks))| toks.contains_key(token))
+            .map(|(id, _)| *id)
+            .collect()
+    }
+    fn all(&self) -> BTreeSet<u64> {
+        self.docs.keys().copied().collect()
+    }
+    fn remove_with(&mut self, id: u64, text_tokens: &BTreeMap<String, usize>) -> bool {
+        // entries for the tokens of the supplied text are cleaned in any case
+        self.stale.retain(|(i, t)| !(*i == id && text_tokens.contains_key(t)));
+        match self.docs.remove(&id) {
+            Some((_, toks)) => {
+                for t in toks.keys() {
+                    if !text_tokens.contains_key(t) {
+                        self.stale.insert((id, t.clone()));
+                    }
+                }
+                true
+            }
+            None => false,
+        }
+    }
+}
+
+pub struct Tfs;
+
+#[derive(Serialize, Deserialize)]
+struct MetaWrap {
+    metadata: BM25Metadata,
+}
+
+#[derive(Deserialize)]
+struct BucketMirror {
+    #[serde(rename = "p")]
+    postings: BTreeMap<String, (u32, Vec<(u64, usize)>)>,
+    #[serde(rename = "d")]
+    doc_tokens: BTreeMap<u64, usize>,
+}
+
+fn show_model(m: &TfsModel) -> String {
+    let mut s = String::from("{");
+    for (id, (t, _)) in &m.docs {
+        s.push_str(&format!("{id}:{:?} ", TEXTS[*t as usize]));
+    }
+    s.push('}');
+    if !m.stale.is_empty() {
+        s.push_str(&format!(" stale{:?}", m.stale));
+    }
+    s
+}
+
+// ------------------------------------------------------------ boolean queries
+
+#[derive(Clone, Debug)]
+pub enum Q {
+    T(usize),
+    And(Vec<Q>),
+    Or(Vec<Q>),
+    Not(Box<Q>),
+}
+
+impl Q {
+    fn atom(&self) -> String {
+        match self {
+            Q::T(i) => TERMS[*i].to_string(),
+            other => format!("({})", other.render()),
+        }
+    }
+    fn operand(&self) -> String {
+        match self {
+            Q::T(i) => TERMS[*i].to_string(),
+            Q::Not(_) => self.render(),
+            other => format!("({})", other.render()),
+        }
+    }
+    /// Query string in the syntax of query.rs: `A AND B`, `A OR B`,
+    /// `NOT A`, parentheses around every composite operand.
+    pub fn render(&self) -> String {
+        match self {
+            Q::T(i) => TERMS[*i].to_string(),
+            Q::Not(x) => format!("NOT {}", x.atom()),
+            Q::And(xs) => xs.iter().map(|x| x.operand()).collect::<Vec<_>>().join(" AND "),
+            Q::Or(xs) => xs.iter().map(|x| x.operand()).collect::<Vec<_>>().join(" OR "),
+        }
+    }
+    /// Set algebra over the live documents.
+    pub fn eval(&self, m: &TfsModel) -> BTreeSet<u64> {
+        match self {
+            Q::T(i) => m.containing(term_token(*i)),
+            Q::And(xs) => {
+                let mut it = xs.iter();
+                let mut acc = it.next().map(|x| x.eval(m)).unwrap_or_default();
+                for x in it {
+                    let s = x.eval(m);
+                    acc = acc.intersection(&s).copied().collect();
+                }
+                acc
+            }
+            Q::Or(xs) => {
+                let mut acc = BTreeSet::new();
+                for x in xs {
+                    acc.extend(x.eval(m));
+                }
+                acc
+            }
+            Q::Not(x) => {
+                let s = x.eval(m);
+                m.all().difference(&s).copied().collect()
+            }
+        }
+    }
+    pub fn shape(&self) -> String {
+        match self {
+            Q::T(_) => "T".into(),
+            Q::And(xs) => format!("And({})", xs.iter().map(|x| x.shape()).collect::<Vec<_>>().join(",")),
+            Q::Or(xs) => format!("Or({})", xs.iter().map(|x| x.shape()).collect::<Vec<_>>().join(",")),
+            Q::Not(x) => format!("Not({})", x.shape()),
+        }
+    }
+    /// terms mentioned (for classification)
+    fn terms(&self, out: &mut BTreeSet<usize>) {
+        match self {
+            Q::T(i) => {
+                out.insert(*i);
+            }
+            Q::And(xs) | Q::Or(xs) => xs.iter().for_each(|x| x.terms(out)),
+            Q::Not(x) => x.terms(out),
+        }
+    }
+}
+
+fn terms_as_q() -> Vec<Q> {
+    (0..TERMS.len()).map(Q::T).collect()
+}
+
+/// depth <= 2 over the given leaves: Not(leaf), And/Or of every ordered pair,
+/// and a few ternaries.
+fn q_depth2(a: &[Q]) -> Vec<Q> {
+    let mut out = a.to_vec();
+    for x in a {
+        out.push(Q::Not(Box::new(x.clone())));
+    }
+    for x in a {
+        for y in a {
+            out.push(Q::And(vec![x.clone(), y.clone()]));
+            out.push(Q::Or(vec![x.clone(), y.clone()]));
+        }
+    }
+    let n = a.len();
+    for i in 0..n {
+        let (x, y, z) = (&a[i], &a[(i + 1) % n], &a[(i + 2) % n]);
+        out.push(Q::And(vec![x.clone(), y.clone(), z.clone()]));
+        out.push(Q::Or(vec![x.clone(), y.clone(), z.clone()]));
+    }
+    out
+}
+
+/// Every boolean tree to `depth` (leaf = 1) over TERMS; depth 3 = Not / binary
+/// And / binary Or over all depth<=2 trees.
+pub fn q_trees(depth: usize) -> Vec<Q> {
+    let t1 = terms_as_q();
+    match depth {
+        0 | 1 => t1,
+        2 => q_depth2(&t1),
+        _ => {
+            let t2 = q_depth2(&t1);
+            let mut out = t2.clone();
+            for x in &t2 {
+                if !matches!(x, Q::T(_)) {
+                    out.push(Q::Not(Box::new(x.clone())));
+                }
+            }
+            for x in &t2 {
+                for y in &t2 {
+                    if matches!(x, Q::T(_)) && matches!(y, Q::T(_)) {
+                        continue; // already in t2
+                    }
+                    out.push(Q::And(vec![x.clone(), y.clone()]));
+                    out.push(Q::Or(vec![x.clone(), y.clone()]));
+                }
+            }
+            out
+        }
+    }
+}
+
+/// The boolean shapes used in the per-step light battery.
+pub fn light_trees() -> Vec<Q> {
+    let n = |q: Q| Q::Not(Box::new(q));
+    vec![
+        Q::And(vec![Q::T(0), Q::T(1)]),
+        Q::Or(vec![Q::T(2), Q::T(3)]),
+        n(Q::T(0)),
+        Q::And(vec![Q::T(1), n(Q::T(2))]),
+        Q::Or(vec![n(Q::T(3)), Q::T(0)]),
+        Q::And(vec![n(Q::T(1)), n(Q::T(3))]),
+    ]
+}
+
+pub fn params_list() -> Vec<(&'static str, Option<BM25Params>)> {
+    let p = |k1: f32, b: f32| Some(BM25Params { k1, b });
+    vec![
+        ("default", None),
+        ("k1=0", p(0.0, 0.75)),
+        ("b=0", p(1.2, 0.0)),
+        ("b=1", p(1.2, 1.0)),
+        ("k1=NaN", p(f32::NAN, 0.75)),
+        ("b=NaN", p(1.2, f32::NAN)),
+        ("k1=+inf", p(f32::INFINITY, 0.75)),
+        ("b=+inf", p(1.2, f32::INFINITY)),
+        ("k1=-inf,b=-inf", p(f32::NEG_INFINITY, f32::NEG_INFINITY)),
+        ("k1=-1,b=-1", p(-1.0, -1.0)),
+        ("k1=f32::MAX", p(f32::MAX, 0.75)),
+        ("k1=f32::MAX,b=f32::MAX", p(f32::MAX, f32::MAX)),
+    ]
+}
+
+fn bits(v: &[(u64, f32)]) -> Vec<(u64, u32)> {
+    v.iter().map(|(i, s)| (*i, s.to_bits())).collect()
+}
+
+/// Checks one result list: id set (or a k-subset of it), score sanity, order.
+fn check_list(
+    what: &str,
+    qs: &str,
+    list: &[(u64, f32)],
+    want: &BTreeSet<u64>,
+    k: usize,
+    m: &TfsModel,
+    stale_terms: &BTreeSet<usize>,
+) -> Result<(), Fail> {
+    let ids: BTreeSet<u64> = list.iter().map(|(i, _)| *i).collect();
+    let set_ok = if k >= want.len() {
+        &ids == want
+    } else {
+        ids.len() == k && ids.is_subset(want)
+    };
+    if ids.len() != list.len() {
+        return Err(Fail::new(format!("{what}:duplicate-id"), format!("query {qs:?} k={k}: {list:?}")));
+    }
+    if !set_ok {
+        // classification: is the surplus explained by a stale entry of a
+        // re-inserted id (remove with non-original text, then insert again)?
+        let surplus: Vec<u64> = ids.difference(want).copied().collect();
+        let resurrect = !surplus.is_empty()
+            && surplus
+                .iter()
+                .all(|id| stale_terms.iter().any(|t| m.stale.contains(&(*id, term_token(*t).to_string()))));
+        let kind = if resurrect {
+            format!("{what}:set:stale-posting-of-reinserted-id")
+        } else {
+            format!("{what}:set")
+        };
+        return Err(Fail::new(
+            kind,
+            format!("query {qs:?} k={k}: got ids {ids:?}, model {want:?}; docs {}", show_model(m)),
+        ));
+    }
+    for (id, s) in list {
+        if !s.is_finite() || *s < 0.0 {
+            return Err(Fail::new(format!("{what}:score-not-finite-nonneg"), format!("query {qs:?}: doc {id} score {s}")));
+        }
+    }
+    for w in list.windows(2) {
+        let ((i1, s1), (i2, s2)) = (w[0], w[1]);
+        let ok = s1 > s2 || (s1 == s2 && i1 < i2);
+        if !ok {
+            return Err(Fail::new(format!("{what}:order"), format!("query {qs:?}: {list:?} is not (score desc, id asc)")));
+        }
+    }
+    Ok(())
+}
+
+type Idx = BM25Index<TokenizerChain>;
+
+fn adv(idx: &Idx, qs: &str, k: usize, p: &Option<BM25Params>) -> Result<Vec<(u64, f32)>, Fail> {
+    idx.try_search_advanced(qs, k, p.clone())
+        .map_err(|e| Fail::new("advanced:error", format!("query {qs:?} k={k}: {e:?}")))
+}
+
+/// One boolean tree: full list vs the model, repeat, every k.
+fn check_tree(
+    idx: &Idx,
+    m: &TfsModel,
+    q: &Q,
+    pname: &str,
+    p: &Option<BM25Params>,
+    all_k: bool,
+    evals: &mut u64,
+) -> Result<(), Fail> {
+    let qs = q.render();
+    let want = q.eval(m);
+    let mut ts = BTreeSet::new();
+    q.terms(&mut ts);
+    let what = if pname == "default" {
+        format!("advanced:{}", q.shape())
+    } else {
+        format!("advanced[{pname}]:{}", q.shape())
+    };
+    let full = adv(idx, &qs, BIG_K, p)?;
+    *evals += 1;
+    check_list(&what, &qs, &full, &want, BIG_K, m, &ts)?;
+    let again = adv(idx, &qs, BIG_K, p)?;
+    *evals += 1;
+    if bits(&again) != bits(&full) {
+        return Err(Fail::new(format!("{what}:repeat"), format!("query {qs:?}: {full:?} then {again:?}")));
+    }
+    if all_k {
+        for k in 0..=m.docs.len() + 1 {
+            let top = adv(idx, &qs, k, p)?;
+            *evals += 1;
+            let pre = &full[..k.min(full.len())];
+            if bits(&top) != bits(pre) {
+                return Err(Fail::new(
+                    format!("{what}:top-k-prefix"),
+                    format!("query {qs:?}: top-{k} {top:?} is not the prefix of the full list {full:?}"),
+                ));
+            }
+        }
+    }
+    Ok(())
+}
+
+/// Plain `search` with 1..3 words (words are OR-ed).
+fn check_search(idx: &Idx, m: &TfsModel, words: &[usize], repeat: bool, all_k: bool, evals: &mut u64) -> Result<(), Fail> {
+    let qs = words.iter().map(|i| TERMS[*i]).collect::<Vec<_>>().join(" ");
+    let mut want = BTreeSet::new();
+    for w in words {
+        want.extend(m.containing(term_token(*w)));
+    }
+    let ts: BTreeSet<usize> = words.iter().copied().collect();
+    let what = format!("search:{}w", words.len());
+    let full = idx.search(&qs, BIG_K, None);
+    *evals += 1;
+    check_list(&what, &qs, &full, &want, BIG_K, m, &ts)?;
+    // identical repeat: for <= 2 words only. With >= 3 words the crate sums the
+    // per-token scores in the iteration order of a randomly seeded HashMap, so
+    // the last bit of a score may legitimately(?) vary from call to call; that
+    // is reported in the notes, not checked here, to keep the verdict deterministic.
+    if repeat && words.len() <= 2 {
+        let again = idx.search(&qs, BIG_K, None);
+        *evals += 1;
+        if bits(&again) != bits(&full) {
+            return Err(Fail::new(format!("{what}:repeat"), format!("query {qs:?}: {full:?} then {again:?}")));
+        }
+        if all_k {
+            for k in 0..=m.docs.len() + 1 {
+                let top = idx.search(&qs, k, None);
+                *evals += 1;
+                if bits(&top) != bits(&full[..k.min(full.len())]) {
+                    return Err(Fail::new(
+                        format!("{what}:top-k-prefix"),
+                        format!("query {qs:?}: top-{k} {top:?} vs full {full:?}"),
+                    ));
+                }
+            }
+        }
+    }
+    Ok(())
+}
+
+impl Sut for Tfs {
+    const PROP: &'static str = "C11";
+    type Cfg = TfsCfg;
+    type Op = TfsOp;
+    type Model = TfsModel;
+    type Index = Idx;
+
+    fn cfg_label(cfg: &TfsCfg) -> String {
+        format!("bm25-b{}", cfg.bucket_overload_size)
+    }
+
+    fn op_kind(op: &TfsOp) -> String {
+        match op {
+            TfsOp::Insert(..) => "insert",
+            TfsOp::RemoveOriginal(..) => "remove",
+            TfsOp::RemoveWith(..) => "remove-with-text",
+            TfsOp::Purge(..) => "purge_ids",
+        }
+        .to_string()
+    }
+
+    fn new_index(cfg: &TfsCfg) -> Idx {
+        BM25Index::new(
+            "vindex".to_string(),
+            default_tokenizer(),
+            Some(BM25Config {
+                bm25: BM25Params::default(),
+                bucket_overload_size: cfg.bucket_overload_size,
+            }),
+        )
+    }
+
+    fn apply(idx: &Idx, _cfg: &TfsCfg, op: &TfsOp, m: &mut TfsModel, now: u64) -> Result<(), Fail> {
+        match op {
+            TfsOp::Insert(id, t) => {
+                let toks = text_tokens(*t);
+                // 0 = ok, 1 = tokenize failed, 2 = already exists
+                let want = if toks.is_empty() {
+                    1
+                } else if m.docs.contains_key(id) {
+                    2
+                } else {
+                    m.docs.insert(*id, (*t, toks.clone()));
+                    // entries for tokens of the new text are refreshed by the insert
+                    m.stale.retain(|(i, tok)| !(i == id && toks.contains_key(tok)));
+                    0
+                };
+                let got = idx.insert(*id, TEXTS[*t as usize], now);
+                let g = match &got {
+                    Ok(()) => 0,
+                    Err(BM25Error::TokenizeFailed { .. }) => 1,
+                    Err(BM25Error::AlreadyExists { .. }) => 2,
+                    Err(_) => 3,
+                };
+                if g == want {
+                    Ok(())
+                } else {
+                    Err(Fail::new("insert:return", format!("{op:?}: got {got:?}, model code {want}")))
+                }
+            }
+            TfsOp::RemoveOriginal(id) => {
+                let t = m.docs.get(id).map(|(t, _)| *t).unwrap_or(0);
+                let want = m.remove_with(*id, text_tokens(t));
+                let got = idx.remove(*id, TEXTS[t as usize], now);
+                if got == want {
+                    Ok(())
+                } else {
+                    Err(Fail::new("remove:return", format!("{op:?}: got {got}, model {want}")))
+                }
+            }
+            TfsOp::RemoveWith(id, t) => {
+                let want = m.remove_with(*id, text_tokens(*t));
+                let got = idx.remove(*id, TEXTS[*t as usize], now);
+                if got == want {
+                    Ok(())
+                } else {
+                    Err(Fail::new("remove:return", format!("{op:?}: got {got}, model {want}")))
+                }
+            }
+            TfsOp::Purge(ids) => {
+                let set: BTreeSet<u64> = ids.iter().copied().collect();
+                let mut want = 0;
+                for id in &set {
+                    if m.docs.remove(id).is_some() {
+                        want += 1;
+                    }
+                }
+                // purge sweeps every posting list
+                m.stale.retain(|(i, _)| !set.contains(i));
+                let got = idx.purge_ids(&set, now);
+                if got == want {
+                    Ok(())
+                } else {
+                    Err(Fail::new("purge_ids:return", format!("{op:?}: got {got}, model {want}")))
+                }
+            }
+        }
+    }
+
+    fn compact(idx: &Idx) {
+        let _ = idx.compact_buckets();
+    }
+
+    fn flush(idx: &Idx, now: u64, fail_at: Option<usize>) -> FlushOut {
+        let puts: RefCell<Vec<JEntry>> = RefCell::new(Vec::new());
+        let count = Cell::new(0usize);
+        let res = block_on(idx.flush_with(
+            now,
+            |data: Vec<u8>| {
+                let k = count.get();
+                count.set(k + 1);
+                let r: Result<(), anda_db_tfs::BoxError> = if Some(k) == fail_at {
+                    Err("injected metadata write error".into())
+                } else {
+                    puts.borrow_mut().push(JEntry::Put(ObjKey::Meta, data));
+                    Ok(())
+                };
+                std::future::ready(r)
+            },
+            |obj: BucketObject, data: Vec<u8>| {
+                let k = count.get();
+                count.set(k + 1);
+                let r: Result<(), anda_db_tfs::BoxError> = if Some(k) == fail_at {
+                    Err("injected bucket write error".into())
+                } else {
+                    puts.borrow_mut()
+                        .push(JEntry::Put(ObjKey::Bucket(obj.bucket_id, obj.generation), data));
+                    Ok(())
+                };
+                std::future::ready(r)
+            },
+        ));
+        FlushOut {
+            puts: puts.into_inner(),
+            result: res
+                .map(|o| o.obsolete.iter().map(|b| ObjKey::Bucket(b.bucket_id, b.generation)).collect())
+                .map_err(|e| format!("{e:?}")),
+        }
+    }
+
+    fn load(_cfg: &TfsCfg, store: &Store) -> Result<Idx, String> {
+        let meta = store.get(&ObjKey::Meta).ok_or_else(|| "no metadata object".to_string())?;
+        block_on(BM25Index::load_all(default_tokenizer(), &meta[..], async |obj: BucketObject| {
+            Ok(store.get(&ObjKey::Bucket(obj.bucket_id, obj.generation)).cloned())
+        }))
+        .map_err(|e| format!("{e:?}"))
+    }
+
+    fn on_load(m: &mut TfsModel) {
+        // load prunes posting entries of documents that are not indexed
+        let docs = &m.docs;
+        m.stale.retain(|(id, _)| docs.contains_key(id));
+    }
+
+    fn light_battery(idx: &Idx, _cfg: &TfsCfg, m: &TfsModel, evals: &mut u64) -> Result<(), Fail> {
+        // counters
+        *evals += 2;
+        if idx.len() != m.docs.len() || idx.is_empty() != m.docs.is_empty() {
+            return Err(Fail::new("len", format!("len {} vs model {}", idx.len(), show_model(m))));
+        }
+        let total: usize = m.docs.values().map(|(_, t)| t.values().sum::<usize>()).sum();
+        for id in 1..=5u64 {
+            *evals += 1;
+            let want = m.docs.get(&id).map(|(_, t)| t.values().sum::<usize>());
+            let got = idx.get_doc_tokens(id);
+            if got != want {
+                return Err(Fail::new("doc_tokens", format!("doc {id}: token count {got:?}, model {want:?}")));
+            }
+        }
+        let st = idx.stats();
+        *evals += 1;
+        let want_avg = if m.docs.is_empty() { 0.0 } else { total as f32 / m.docs.len() as f32 };
+        if st.num_elements != m.docs.len() as u64 || st.avg_doc_tokens.to_bits() != want_avg.to_bits() {
+            return Err(Fail::new(
+                "stats:counters",
+                format!(
+                    "num_elements {} avg_doc_tokens {} ; model docs {} total tokens {} avg {}",
+                    st.num_elements,
+                    st.avg_doc_tokens,
+                    m.docs.len(),
+                    total,
+                    want_avg
+                ),
+            ));
+        }
+        // every single term (exact retrieval set), one 3-word query
+        for t in 0..TERMS.len() {
+            check_search(idx, m, &[t], false, false, evals)?;
+        }
+        check_search(idx, m, &[1, 2, 3], false, false, evals)?;
+        // a handful of boolean shapes (the complete tree batteries are in the deep battery)
+        for q in light_trees() {
+            let qs = q.render();
+            let want = q.eval(m);
+            let mut ts = BTreeSet::new();
+            q.terms(&mut ts);
+            let full = adv(idx, &qs, BIG_K, &None)?;
+            *evals += 1;
+            check_list(&format!("advanced:{}", q.shape()), &qs, &full, &want, BIG_K, m, &ts)?;
+        }
+        Ok(())
+    }
+
+    fn deep_battery(idx: &Idx, _cfg: &TfsCfg, m: &TfsModel, depth: usize, evals: &mut u64) -> Result<(), Fail> {
+        // plain search: every 1- and 2-word query with repeat + every k, some 3-word ones
+        for a in 0..TERMS.len() {
+            check_search(idx, m, &[a], true, true, evals)?;
+            for b in 0..TERMS.len() {
+                check_search(idx, m, &[a, b], true, true, evals)?;
+            }
+        }
+        check_search(idx, m, &[0, 1, 2], false, false, evals)?;
+        check_search(idx, m, &[3, 2, 0], false, false, evals)?;
+        let t2 = q_trees(2);
+        // every depth<=2 tree, default parameters, repeat + every k
+        for q in &t2 {
+            check_tree(idx, m, q, "default", &None, true, evals)?;
+        }
+        // parameter sets: quick = terms + the light shapes; thorough = every depth<=2 tree
+        let under_params: Vec<Q> = if depth >= 3 {
+            t2.clone()
+        } else {
+            let mut v = terms_as_q();
+            v.extend(light_trees());
+            v
+        };
+        for (pname, p) in params_list().into_iter().skip(1) {
+            for q in &under_params {
+                check_tree(idx, m, q, pname, &p, true, evals)?;
+            }
+        }
+        // deeper trees: default parameters, repeat + every k
+        if depth >= 3 {
+            for q in q_trees(depth).iter().skip(t2.len()) {
+                check_tree(idx, m, q, "default", &None, true, evals)?;
+            }
+        }
+        Ok(())
+    }
+
+    fn model_key(m: &TfsModel) -> String {
+        show_model(m)
+    }
+
+    fn flags(idx: &Idx) -> String {
+        let md = idx.metadata();
+        format!(
+            "mb{} d{} p{} m{:?}",
+            md.stats.max_bucket_id,
+            idx.has_dirty_buckets() as u8,
+            idx.has_pending_metadata_flush() as u8,
+            md.buckets.keys().collect::<Vec<_>>()
+        )
+    }
+
+    fn canon_bucket(_cfg: &TfsCfg, data: &[u8]) -> String {
+        match cbor2::from_slice::<BucketMirror>(data) {
+            Ok(b) => {
+                let mut s = String::new();
+                for (tok, (_, mut entries)) in b.postings {
+                    entries.sort_unstable();
+                    s.push_str(&format!("{tok}={entries:?};"));
+                }
+                s.push_str(&format!("d{:?}", b.doc_tokens));
+                s
+            }
+            Err(_) => format!("raw{:016x}", vcore::util::fnv64(data)),
+        }
+    }
+
+    fn canonical_signature(kind: &str) -> Option<String> {
+        kind.contains("stale-posting-of-reinserted-id")
+            .then(|| "C11/stale-posting-of-reinserted-id".to_string())
+    }
+
+    fn to_legacy(_cfg: &TfsCfg, store: &Store) -> Option<Store> {
+        let meta = store.get(&ObjKey::Meta)?;
+        let mut w: MetaWrap = cbor2::from_slice(meta).ok()?;
+        let mut out = Store::new();
+        for (id, generation) in &w.metadata.buckets {
+            let d = store.get(&ObjKey::Bucket(*id, *generation))?;
+            out.insert(ObjKey::Bucket(*id, 0), d.clone());
+        }
+        w.metadata.buckets.clear();
+        let mut buf = Vec::new();
+        cbor2::to_writer(&w, &mut buf).ok()?;
+        out.insert(ObjKey::Meta, buf);
+        Some(out)
+    }
+}
+
+pub fn tree_count(depth: usize) -> usize {
+    q_trees(depth).len()
+}
+
+/// Simplest first. `ids`: 1..=ids are used.
+pub fn alphabet(ids: u64, texts: &[u8], nonorig: &[u8]) -> Vec<HOp<TfsOp>> {
+    let mut a = Vec::new();
+    for id in 1..=ids {
+        for t in texts {
+            a.push(HOp::Do(TfsOp::Insert(id, *t)));
+        }
+    }
+    a.push(HOp::Do(TfsOp::Insert(1, BAD_TEXT)));
+    for id in 1..=ids {
+        a.push(HOp::Do(TfsOp::RemoveOriginal(id)));
+    }
+    a.push(HOp::Flush);
+    a.push(HOp::FlushLoad);
+    a.push(HOp::Compact);
+    for id in 1..=ids {
+        for t in nonorig {
+            a.push(HOp::Do(TfsOp::RemoveWith(id, *t)));
+        }
+    }
+    a.push(HOp::Do(TfsOp::Purge(vec![1])));
+    a.push(HOp::Do(TfsOp::Purge(vec![2, 3])));
+    a.push(HOp::Do(TfsOp::Purge(vec![1, 2, 3, 4])));
+    a.push(HOp::Do(TfsOp::Purge(vec![])));
+    a.push(HOp::Do(TfsOp::Purge(vec![4])));
+    a
+}
+
+pub fn legacy_seeds() -> Vec<(&'static str, Vec<HOp<TfsOp>>)> {
+    vec![(
+        "legacy-3docs",
+        vec![
+            HOp::Do(TfsOp::Insert(1, 2)),
+            HOp::Do(TfsOp::Insert(2, 3)),
+            HOp::Do(TfsOp::Insert(3, 5)),
+        ],
+    )]
+}
